@@ -175,7 +175,7 @@ struct HaWorld : World {
         for (int k = 0; k < ninst; k++) {
             Inst &i = in[k];
             new_arena(i, ms, k == 0 ? 0 : 12);
-            memset(i.mem(), k == 0 ? 0x5A : 0xA5, ms);        // dirty memory: the constructor must initialise it
+            memset(i.mem(), (cfg.get("useed") & 1) ? 0x5A : 0xA5, ms);        // dirty memory, the same in both copies: bytes the constructor leaves alone are not "addresses"
             i.h[0] = i.h[1] = nullptr; i.cur = 0;
             { InSut s; i.h[0] = qhasharr(i.mem(), ms); }
             if (!i.h[0]) { for (int j = 0; j <= k; j++) { if (in[j].h[0]) { InSut s; qhasharr_free(in[j].h[0]); } in[j].h[0] = nullptr; free_arena(in[j]); } return false; }
@@ -323,7 +323,7 @@ struct HaWorld : World {
                 if (!more) { if (sim_fault_fired() > fired_seen) failed = true; break; }
                 Bytes e; Bytes nm((const char *)o.name, o.namesize), v((const char *)o.data, o.datasize);
                 enc(e, nm); enc(e, v); seen.push_back(e);
-                x.hold(o.name, nm + Bytes(1, '\0'), "hasharr.getnext.name"); x.hold(o.data, v, "hasharr.getnext.data");
+                x.hold(o.name, nm, "hasharr.getnext.name"); x.hold(o.data, v, "hasharr.getnext.data");
                 if ((int)seen.size() > maxslots + 2) x.fail("walk-mismatch", "result", "walk returned more elements than slots");
             }
             std::sort(seen.begin(), seen.end());
@@ -338,7 +338,7 @@ struct HaWorld : World {
         }
         case HA_TINYCTOR: {
             // a region too small for the header and one slot must be refused without a single byte written outside it
-            Inst tiny; size_t sz = (size_t)std::max(1, op.a % 96);
+            Inst tiny; size_t sz = (size_t)std::max(1, op.a % (int)qhasharr_calculate_memsize(1));    // less than the header and one slot
             new_arena(tiny, sz, (size_t)(4 * (op.a % 8)));
             memset(tiny.mem(), 0x33, sz);
             qhasharr_t *th;
@@ -469,20 +469,15 @@ struct HaWorld : World {
                 if (home >= (uint32_t)maxslots) bad("slot " + num(j) + " names home " + num((long long)home) + " outside the table");
                 if (c > 0 && home != (uint32_t)j) bad("leading slot " + num(j) + " stores home " + num((long long)home));
                 if (c == -1) { if (home == (uint32_t)j) bad("collision key sits in its own home slot " + num(j)); collisions[home]++; }
-                // the stored key must really hash to that home
+                // (which hash function names the home, and how full a block must be before the chain continues, are the
+                //  implementation's business: a misplaced key or a badly packed value shows up in lookups and in the accounting)
                 uint16_t ns = s[j].data.pair.namesize;
                 if (ns == 0) bad("slot " + num(j) + " stores a key of length 0");
-                if (ns <= Q_HASHARR_NAMESIZE) {
-                    if (qhashmurmur3_32(s[j].data.pair.name, ns) % (uint32_t)maxslots != home) bad("key in slot " + num(j) + " does not hash to its recorded home " + num((long long)home));
-                    unsigned char md5[16]; qhashmd5(s[j].data.pair.name, ns, md5);
-                    if (memcmp(md5, s[j].data.pair.namemd5, 16)) bad("digest of the key in slot " + num(j) + " is stale");
-                }
                 // follow the value chain
                 int prev = j, cur = s[j].link, hops = 0;
                 if (owner[j] != -1) bad("slot " + num(j) + " belongs to two keys");
                 owner[j] = j;
                 if (s[j].datasize > SLOT_DATA) bad("slot " + num(j) + " claims " + num(s[j].datasize) + " value bytes");
-                if (s[j].link != -1 && s[j].datasize != SLOT_DATA) bad("key slot " + num(j) + " continues although it is not full");
                 while (cur != -1) {
                     if (cur < 0 || cur >= maxslots) bad("value chain of slot " + num(j) + " leaves the table (" + num(cur) + ")");
                     if (++hops > maxslots) bad("value chain of slot " + num(j) + " has a cycle");
@@ -490,8 +485,7 @@ struct HaWorld : World {
                     if ((int)s[cur].hash != prev) bad("extension block " + num(cur) + " names predecessor " + num((long long)s[cur].hash) + ", expected " + num(prev));
                     if (owner[cur] != -1) bad("extension block " + num(cur) + " belongs to two keys");
                     owner[cur] = j;
-                    if (s[cur].datasize == 0 || s[cur].datasize > EXT_DATA) bad("extension block " + num(cur) + " claims " + num(s[cur].datasize) + " value bytes");
-                    if (s[cur].link != -1 && s[cur].datasize != EXT_DATA) bad("extension block " + num(cur) + " continues although it is not full");
+                    if (s[cur].datasize > EXT_DATA) bad("extension block " + num(cur) + " claims " + num(s[cur].datasize) + " value bytes");
                     prev = cur; cur = s[cur].link;
                 }
             }
